@@ -269,6 +269,85 @@ func genExactEA(r *prng.R, opcode int) (cpuCase, bool) {
 	return c, true
 }
 
+
+// genDataDirected: a second-pass case. The first pass runs the real primary interpreter on `c` with a read-logging memory to learn
+// which addresses the instruction reads beyond its own bytes (pointers, data, pulled stack bytes); the derived case presets
+// those addresses with boundary values chosen relative to the registers (0, 1, $7F, $80, $FF, $7FFF, $8000, $FFFF, equal to the
+// accumulator / index, the complements that make an ADC/SBC land exactly on the carry and overflow boundaries, BCD digits).
+func genDataDirected(r *prng.R, c cpuCase) (cpuCase, bool) {
+	mem := cpuh.NewMem(c.seed)
+	for a, v := range c.ovl {
+		mem.Ovl[a] = v
+	}
+	mem.LogReads = true
+	p := cpuh.NewPrimary(mem)
+	p.Set(c.regs)
+	if _, _, pn := p.Step(); pn != "" {
+		return c, false
+	}
+	g := c.regs
+	isCode := func(a uint32) bool {
+		for k := uint16(0); k < 4; k++ {
+			if a == uint32(g.RK)<<16|uint32(g.PC+k) {
+				return true
+			}
+		}
+		return false
+	}
+	var data []uint32
+	for _, a := range mem.ReadLog {
+		if !isCode(a) {
+			data = append(data, a)
+		}
+	}
+	if len(data) == 0 {
+		return c, false
+	}
+	d := cpuCase{regs: c.regs, seed: c.seed, ovl: map[uint32]byte{}, steps: 1, tag: "data " + c.tag}
+	for a, v := range c.ovl {
+		d.ovl[a] = v
+	}
+	acc := g.RA
+	if g.M == 1 {
+		acc = uint16(g.RAh)<<8 | uint16(g.RAl)
+	}
+	x, y := g.RX, g.RY
+	if g.X == 1 {
+		x, y = uint16(g.RXl), uint16(g.RYl)
+	}
+	cin := uint16(g.C)
+	vals := []uint16{0, 1, 0x7F, 0x80, 0xFF, 0x100, 0x7FFF, 0x8000, 0xFFFF, 0xFFFE, acc, ^acc, acc + 1, acc - 1, x, y, x + 1, y - 1,
+		0x7F - acc, 0x80 - acc, 0xFF - acc, 0x100 - acc, 0x7FFF - acc, 0x8000 - acc, 0xFFFF - acc, 0 - acc,
+		0x7F - acc - cin, 0x80 - acc - cin, 0xFF - acc - cin, 0x100 - acc - cin, 0x8000 - acc - cin, 0 - acc - cin,
+		acc - 0x80, acc - 0x7F, acc - 0x8000, acc + cin - 1, acc&0xFF | acc<<8,
+		0x09, 0x0A, 0x99, 0x9A, 0x0999, 0x9999, 0x0F, 0xF0, 0x10, 0x30, 0x20, 0xCF, 0xEF}
+	v := vals[r.N(len(vals))]
+	if r.Chance(25) {
+		v = v&0xFF | uint16(pick8(r))<<8
+	}
+	set := data
+	if r.Chance(70) { // only the last one or two reads: the data operand (pointer bytes come first)
+		k := 2
+		if len(set) < 2 || r.Chance(30) {
+			k = 1
+		}
+		set = set[len(set)-k:]
+	}
+	for i, a := range set {
+		switch {
+		case len(set) == 1:
+			d.ovl[a] = byte(v)
+		case i == len(set)-2:
+			d.ovl[a] = byte(v)
+		case i == len(set)-1:
+			d.ovl[a] = byte(v >> 8)
+		default:
+			d.ovl[a] = []uint8{0x00, 0xFF, 0xFE, 0x01, pick8(r)}[r.N(5)]
+		}
+	}
+	return d, true
+}
+
 func (c *cpuCase) byteAt(a uint32) byte {
 	if v, ok := c.ovl[a]; ok {
 		return v
@@ -276,27 +355,31 @@ func (c *cpuCase) byteAt(a uint32) byte {
 	return prng.Hash(c.seed, a)
 }
 
-func runCPU() {
-	rep := report.New("cpu", tier, seed)
-	r := prng.New(seed)
-	perOp := 60
-	nProg := 4000
+
+// cpuCaseSet: the shared case list of vh cpu and vh cpu-spec. nativeOnly keeps E=0 in the start states.
+func cpuCaseSet(r *prng.R, nativeOnly bool) []cpuCase {
+	perOp, perData, nProg, perEA := 300, 400, 16000, 16
 	if tier == "thorough" {
-		perOp = 2500
-		nProg = 150000
+		perOp, perData, nProg, perEA = 4000, 4000, 200000, 300
 	}
+	nat := func(k, m int) bool { return nativeOnly || k%m != 0 }
 	var cases []cpuCase
 	for op := 0; op < 256; op++ {
 		for k := 0; k < perOp; k++ {
-			cases = append(cases, genCPUCase(r.Fork(), op, k%4 != 0))
+			cases = append(cases, genCPUCase(r.Fork(), op, nat(k, 4)))
+		}
+	}
+	for op := 0; op < 256; op++ {
+		for k := 0; k < perData; k++ {
+			base := genCPUCase(r.Fork(), op, nat(k, 4))
+			base.steps = 1
+			if c, ok := genDataDirected(r.Fork(), base); ok {
+				cases = append(cases, c)
+			}
 		}
 	}
 	for k := 0; k < nProg; k++ {
-		cases = append(cases, genCPUCase(r.Fork(), -1, k%3 != 0))
-	}
-	perEA := 12
-	if tier == "thorough" {
-		perEA = 300
+		cases = append(cases, genCPUCase(r.Fork(), -1, nat(k, 3)))
 	}
 	for op := 0; op < 256; op++ {
 		for k := 0; k < perEA; k++ {
@@ -305,6 +388,13 @@ func runCPU() {
 			}
 		}
 	}
+	return cases
+}
+
+func runCPU() {
+	rep := report.New("cpu", tier, seed)
+	r := prng.New(seed)
+	cases := cpuCaseSet(r, false)
 	d, err := drv.Start(modelDrv)
 	var replies []string
 	if err == nil {
@@ -469,6 +559,7 @@ func runCPU() {
 	rep.Rule = "directed: every opcode x boundary-biased registers (PC near $FFFF, DBR $00/$7E/$FF, D page aligned or not, S $01FF/$0000/$FFFF, index and accumulator values 0,1,$7F,$80,$FF,$7FFF,$8000,$FFFF, " +
 		"junk or coherent shadow copies), M/X/E/D combinations, boundary operand and pointer bytes; random: programs of 2..15 steps over a seeded 16 MiB image; both real interpreters run every case in lockstep " +
 		"(whole bus mapped) and are compared with each other, with the compiled Lean model, and with oracles for crashes / address range / cycle accounting / stop latch. " +
+		"data-directed second pass: the addresses an instruction reads beyond its own bytes are learnt from a first run and preset with boundary values relative to the registers (equal / off-by-one / complements landing exactly on carry and overflow boundaries / BCD digits); " +
 		"additionally: per EA-group opcode, states steering the effective address exactly onto $FFFFFF / $FFFFFE / one past the top / bank ends (16-bit data straddling the wrap); and Go-only cases with a pending NMI or IRQ (no crash, lockstep, cycle bookkeeping of the servicing Step). " +
 		"evaluations = instructions executed per interpreter; distinct_nontrivial = distinct (opcode or program, M, X, E, D) classes"
 	rep.Emit()
